@@ -4,8 +4,8 @@ import vlib
 sys.path.insert(0, os.path.join(vlib.VERIF, "tools"))
 import wiregen
 
-HARNESSES = ("wire_h",)
-MLS = ("wire",)
+HARNESSES = ("wire_h", "flow_h")
+MLS = ("wire", "flow")
 THEOREMS = []
 if os.path.exists(os.path.join(vlib.COQ, "Props", "C11.v")):
     THEOREMS = re.findall(r"^Theorem\s+(C11_[A-Za-z0-9_]+)", open(os.path.join(vlib.COQ, "Props", "C11.v")).read(), re.M)
@@ -446,6 +446,10 @@ def run(ctx):
         if rp.get("leg") == "handshake":
             handshake_leg(ctx, rep, rnd, tier)
             cases = []
+        elif rp.get("leg") == "flow":
+            from props import c11_flow
+            c11_flow.leg(ctx, rep, rnd, tier, only=rp)
+            cases = []
         elif rp.get("leg") == "quota":
             quota_leg(ctx, rep, rnd, tier, only=rp)
             cases = []
@@ -494,11 +498,13 @@ def run(ctx):
         n_fdd = fd_daemon_leg(ctx, rep, rnd, tier)
         meta["corrupt_tail_partitions"] = corrupt_tail_leg(ctx, rep, rnd, tier)
         meta["quota_partitions"] = quota_leg(ctx, rep, rnd, tier)
+        from props import c11_flow
+        meta.update({k: v for k, v in c11_flow.leg(ctx, rep, rnd, tier).items() if not isinstance(v, (list, dict)) or len(str(v)) < 800})
     meta["fd_stream_cases"] = n_fd
     meta["fd_stream_cases_with_limited_reads"] = n_lim
     meta["fd_daemon_partitions"] = n_fdd
     rep.coverage.update({
-        "evaluations": len(cases) + n_hs + n_fd + n_fdd + meta.get("corrupt_tail_partitions", 0) + meta.get("quota_partitions", 0), "distinct_nontrivial": len(nontrivial),
+        "evaluations": len(cases) + n_hs + n_fd + n_fdd + meta.get("corrupt_tail_partitions", 0) + meta.get("quota_partitions", 0) + meta.get("flow_cases", 0) + meta.get("tflow_cases", 0), "distinct_nontrivial": len(nontrivial),
         "rule": "streams of 1-8 random valid messages (both byte orders, sizes 16 B - 70 KB), half of them followed by a corrupted message and more bytes; "
                 "cut sets: every single cut at fixed-header/ header-end / message-end boundaries +-1, one-byte chunks for streams <= 600 bytes, random multi-cuts; "
                 "all subsets of 14 boundary cut points of a two-message stream (thorough; every 7th in quick). non-trivial = more than one chunk. "
